@@ -367,7 +367,24 @@ func c11Diff(have, want []string) string {
 // ---------- CORR ----------
 
 func c11Corr(ctx *Ctx, n int) error {
-	for i := 0; i < n; i++ {
+	// exhaustive part: every sequence of up to 4 values over names that collide after sanitising and whose numbered forms
+	// collide with other values (foo, Foo, foo1, …): the counting paths of SanitizeEnumNames do not depend on the draw
+	small := []string{"foo", "Foo", "foo1", "Foo1", "foo2", "foo_1"}
+	var fixed [][]string
+	var rec func(cur []string)
+	rec = func(cur []string) {
+		if len(cur) > 0 {
+			fixed = append(fixed, append([]string{}, cur...))
+		}
+		if len(cur) == 4 {
+			return
+		}
+		for _, v := range small {
+			rec(append(cur, v))
+		}
+	}
+	rec(nil)
+	for i := 0; i < n+len(fixed); i++ {
 		r := ctx.Rng.Fork()
 		k := 1 + r.Intn(5)
 		var vals, names []string
@@ -380,6 +397,9 @@ func c11Corr(ctx *Ctx, n int) error {
 			for j, m := 0, r.Intn(k+2); j < m; j++ {
 				names = append(names, r.Pick([]string{"First", "Second", "second", "a b", "1x", "First", "type", "", "foo"}))
 			}
+		}
+		if i < len(fixed) {
+			vals, names = fixed[i], fixed[i]
 		}
 		got := codegen.SanitizeEnumNames(names, vals)
 		var res struct {
@@ -403,6 +423,18 @@ func c11Corr(ctx *Ctx, n int) error {
 		ctx.Res.Count("corr:sanitize")
 		if Canon(want) != Canon(got) {
 			ctx.Res.Disagree("CORR SanitizeEnumNames vs Enums.sanitizeEnumNames", J{"names": names, "values": vals}, want, got)
+			// is this input one on which the statement fails? (every distinct value keeps a constant of its own)
+			distinct := map[string]bool{}
+			for _, v := range vals {
+				distinct[v] = true
+			}
+			have := map[string]bool{}
+			for _, v := range got {
+				have[v] = true
+			}
+			if len(got) != len(distinct) || len(have) != len(distinct) {
+				ctx.Res.Violate("sanitize:value-lost", fmt.Sprintf("SanitizeEnumNames(%q, %q) gives %d constants for %d distinct values: %v", names, vals, len(got), len(distinct), got), J{"names": names, "values": vals, "result": got})
+			}
 		}
 	}
 	// the literal: strconv.Quote vs the model's quoteGo on ASCII strings, unquote of both
